@@ -309,6 +309,19 @@ def run(chk):
 
 
 def replay(path):
+    """re-runs the stored scenario (same seed and parameters) on the current tree"""
+    import logging
+    logging.disable(logging.CRITICAL)
     r = json.load(open(path))
-    print(json.dumps(r.get("first") or r.get("broken_theorems") or r.get("correspondence_breaks"), indent=1, default=str)[:3000])
-    return 1 if r.get("first") else 0
+    v = r.get("first")
+    if not v:
+        print(json.dumps(r.get("broken_theorems") or r.get("correspondence_breaks"), indent=1, default=str)[:3000])
+        return 0
+    i = v["input"]
+    limit = 0 if i["batch_limit"] == 262144 else i["batch_limit"]
+    res = scenario(i["seed"], i["threads"], i["per_thread"], i["partial_writes"], i["inbound_messages"], i["line_level"], limit, i["sizes"])
+    now = verdict(res, i["threads"])
+    print("scenario: %s" % json.dumps(i))
+    print("recorded: %s" % v["what"])
+    print("now     : %s" % (("VIOLATED: %s %s" % (now[0], json.dumps(now[1], default=str)[:300])) if now else "the statement holds on this run"))
+    return 1 if now else 0
